@@ -55,6 +55,8 @@ const (
 	stakeSpan      = 16 // StakeUntil = register height + stakeSpan
 	voteSpan       = 3  // vote LockTime = block height + voteSpan
 	waitBlocks     = 6  // "wait" = this many empty blocks (state.ActivateDuration)
+	// regime "activating": DPoSV2ActiveHeight = baseHeight + activateOffset
+	activateOffset = 12
 
 	regDeposit = 5000 * ELA
 	topUpValue = 1000 * ELA
@@ -75,8 +77,10 @@ const (
 type world struct {
 	params *config.Configuration // == &config.DefaultParams
 	chain  *blockchain.BlockChain
-	regime string // "pre" = DPoS v2 not yet active, "active" = DPoS v2 active
+	regime string // "pre" = DPoS v2 not yet active, "active" = active, "activating" = becomes active at activeAt
 	nStake int
+	// activeAt is DPoSV2ActiveHeight when it lies inside the explored heights (0: it does not)
+	activeAt uint32
 	// event subscriptions that exist once the fixture is built
 	subscribers int
 }
@@ -98,7 +102,11 @@ func setupWorld(regime string, nStake int) *world {
 	chain := &blockchain.BlockChain{}
 	ckp := checkpoint.NewManager(p)
 	chain.SetCRCommittee(crstate.NewCommittee(p, ckp)) // empty: no CR votes, no CR members
-	return &world{params: p, chain: chain, regime: regime, nStake: nStake, subscribers: events.VerifSubscriberCount()}
+	w := &world{params: p, chain: chain, regime: regime, nStake: nStake, subscribers: events.VerifSubscriberCount()}
+	if regime == "activating" {
+		w.activeAt = baseHeight + activateOffset
+	}
+	return w
 }
 
 // verdict of one of the node's checks
@@ -209,6 +217,10 @@ func (p *prodM) lock(h uint32) int64 {
 	if p.cancelled && h >= p.cancelH+lockupBlocks {
 		return 0
 	}
+	// at DPoSV2ActiveHeight every DPoS v1 producer is retired and its deposit released
+	if W.activeAt != 0 && h >= W.activeAt {
+		return 0
+	}
 	return lockV1
 }
 
@@ -284,8 +296,13 @@ func newInst() *inst {
 	events.VerifTruncateSubscribers(W.subscribers)
 	st := state.NewState(W.params, nil, nil, nil, func() bool { return false },
 		nil, nil, nil, nil, nil, nil, nil)
-	if W.regime == "active" {
+	switch W.regime {
+	case "active":
 		st.DPoSV2ActiveHeight = baseHeight - 1000
+	case "activating":
+		// the arbitrators set DPoSV2ActiveHeight some blocks ahead once enough DPoS v2
+		// producers are effective; here it is planted directly
+		st.DPoSV2ActiveHeight = W.activeAt
 	}
 	W.chain.SetState(st)
 	in := &inst{st: st, h: baseHeight, nv: NV}
@@ -1005,6 +1022,13 @@ func (in *inst) invariants(after string, retProd int) *fail {
 // the maximal lock time, 720000 blocks).
 func (in *inst) Digest() string {
 	var sb strings.Builder
+	if W.activeAt != 0 {
+		d := int64(W.activeAt) - int64(in.h)
+		if d < -1 {
+			d = -1
+		}
+		fmt.Fprintf(&sb, "A%d|", d)
+	}
 	for p := 0; p < nProducers; p++ {
 		m := in.prod[p]
 		pr := in.st.GetProducer(ownerID[p].pub)
